@@ -64,6 +64,11 @@ STRENGTH_ID = {
  "C09-m9": "Cache pickled while a read is in progress (the copy must yield the whole sequence)", "C09-m10": "shortcuts law: Environments.take/reservoir/slice/riffle/where keep the filters' promises (strict reservoir on a short environment)",
  "C04-m9": "held-params law: a source whose params dict the caller keeps, read through several SupervisedSimulations", "C13-m9": "EncodeCatRows oracle (eager replacement, source rows untouched incl. shared nested lists, second pass equal); found and fixed two defects of EncodeCatRows on the way",
  "C13-m10": "sparse ARFF lines with quoted values and several blanks / tabs between index and value", "C18-m10": "Results whose three parameter tables share a column name ('seed', as real environments, learners and evaluators report): as l/p/x it means the environments' column",
+ "C01-m9": "environments whose params are complete only after a read (supervised data) behind chunk(), under configurations that chunk the tasks differently", "C01-m10": "one RejectionCB object for logged environments with different propensities, in-process versus worker processes (evaluator seeds whose first draw separates the thresholds)",
+ "C16-m9": "NOT claimed: it needs rewards of magnitude 1e154 fed to BanditUCBLearner; the property quantifies over rewards in [0,1] where the algorithm requires it (UCB1-tuned does)", "C16-m10": "Corral with horizons T=2,3,4,7 driven for 1000 rounds (3000 in the thorough tier): learning must not raise, weights and learning rates stay positive",
+ "C17-m9": "failed-index law: index() on a read-only view or on a column that cannot be ordered raises, the caller goes on, every later where equals a scan", "C17-m10": "caught as built", "C08-m9": "caught as built (abandoned consumers in the scheduled co-simulation)",
+ "C08-m10": "real-process cases whose completion callbacks are descheduled right after each queue write (a QueueSink that is slow to return): the error of the worker that retires last must still be raised", "C06-m10": "caught as built",
+ "C06-m9": "reuse law: one SequentialCB object evaluates several pairs (the same fields, learners with and without score) and must treat each like a fresh evaluator does",
  "C20-m3": "caught as built (interleaved terms such as 'xax')", "C20-m4": "caught as built (number-first mixed sequences)",
 }
 def heading(pid, m):
